@@ -384,9 +384,13 @@ def _do_rewrite(source: str, rewrite: _Rewrite, *, fix_function_name: str = "") 
 
         if new_code and isinstance(new, ast.stmt):
             new_code = new_code.rstrip() + "\n"
-            if isinstance(old, core.Range) and old.start == old.end == len(source):
-                # Inserted below the last line. There is no existing indentation to take over,
-                # so the statement is indented to the column it asks for.
+            if (
+                isinstance(old, core.Range)
+                and old.start == old.end
+                and (old.start == len(source) or source[: old.start].endswith("\n"))
+            ):
+                # Inserted below the last line, or above a line. There is no existing indentation
+                # to take over, so the statement is indented to the column it asks for.
                 new_code = textwrap.indent(new_code, " " * getattr(new, "col_offset", 0))
                 if source and not source.endswith("\n"):
                     new_code = "\n" + new_code
@@ -672,6 +676,11 @@ def _schedule_rewrites(
 
             # In order to not replace anything, we need to make sure the range is empty.
             before = core.Range(before.start, before.start)
+
+            line_start = source.rfind("\n", 0, before.start) + 1
+            if source[line_start : before.start].strip():
+                # The line is indented less than the new node. Insert above it, not inside of it.
+                before = core.Range(line_start, line_start)
 
         if after is None:
             after = ""
